@@ -486,6 +486,35 @@ theorem reinsert_restrict_iff : ∀ (fixed : List (Option ℕ)) (full : Hap), fu
         · intro h j hj b hb
           simpa using h (j+1) (by simpa using hj) b (by simpa using hb)
 
+/-- genotype level: what the sampler produced is recovered from the reported trace by dropping the fixed sites -/
+theorem restrict_reinsert_genotype (fixed : List (Option ℕ)) (g : Genotype)
+    (hg : ∀ x ∈ g, x.length = nHet fixed) : restrict fixed (reinsert fixed g) = g := by
+  unfold restrict reinsert
+  rw [List.map_map]
+  conv_rhs => rw [← List.map_id g]
+  exact List.map_congr_left (fun x hx => restrict_reinsert fixed x (hg x hx))
+
+/-- re-insertion does not care about the order of the haplotypes (the trace sorts them) -/
+theorem reinsert_perm (fixed : List (Option ℕ)) {g g' : Genotype} (h : g.Perm g') :
+    (reinsert fixed g).Perm (reinsert fixed g') := h.map _
+
+/-- ploidy is unchanged and every reported haplotype spans all sites of the locus -/
+theorem reinsert_shape (fixed : List (Option ℕ)) (g : Genotype) (hg : ∀ x ∈ g, x.length = nHet fixed) :
+    (reinsert fixed g).length = g.length ∧ ∀ y ∈ reinsert fixed g, y.length = fixed.length := by
+  refine ⟨by simp [reinsert], ?_⟩
+  intro y hy
+  obtain ⟨x, hx, rfl⟩ := List.mem_map.mp hy
+  exact (reinsert_spec fixed x (hg x hx)).1
+
+/-- every reported haplotype carries the fixed allele at every fixed site -/
+theorem reinsert_fixed_sites (fixed : List (Option ℕ)) (g : Genotype) (hg : ∀ x ∈ g, x.length = nHet fixed)
+    (j : ℕ) (hj : j < fixed.length) (a : ℕ) (hf : fixed[j] = some a) :
+    ∀ y ∈ reinsert fixed g, y.getD j 0 = a := by
+  intro y hy
+  obtain ⟨x, hx, rfl⟩ := List.mem_map.mp hy
+  have := (reinsert_spec fixed x (hg x hx)).2 j hj
+  rw [this, hf]
+
 /-! ### non-vacuity -/
 
 example : randomBreaks 6 [2, 0, 1] = some [(0, 1), (1, 3), (3, 4), (4, 6)] ∧
